@@ -116,7 +116,7 @@ class C12(object):
                     "quantum": rnd.choice([1, 3, 10]), "pct_d": rnd.choice([1, 2, 3]), "sseed": rnd.getrandbits(48),
                     "eager_sleep": rnd.random() < 0.35}
         return {"entry": "labelimage-history", "nfr": nfr, "ns": ns, "nf": nf, "wseed": rnd.getrandbits(48),
-                "threshold": rnd.choice([0.0, 5.0, 100.0]), "omega0": rnd.choice([0.0, -10.0, 90.5]), "ostep": ostep,
+                "threshold": rnd.choice([0.0, 5.0, 100.0, -5000.0]), "omega0": rnd.choice([0.0, -10.0, 90.5]), "ostep": ostep,
                 "write2d": rnd.random() < 0.4, "cfg": cfg}
 
     def describe(self, desc):
@@ -132,7 +132,7 @@ class C12(object):
         kind, M = make_scene(rnd, g, nfr, ns, nf)
         thr = desc["threshold"]
         nv = int(M.sum())
-        vol = g.integers(0, int(thr) + 1, M.shape).astype(np.float32)       # background at or below the threshold
+        vol = (thr - g.integers(0, 6, M.shape)).astype(np.float32)          # background at or below the threshold
         vol[M] = thr + 1 + g.permutation(nv)                                  # distinct intensities above it
         omegas = (desc["omega0"] + desc["ostep"] * np.arange(nfr)).astype(np.float32)
         return kind, M, vol, omegas
